@@ -1395,7 +1395,7 @@ size_t ZSTD_decompressContinue(ZSTD_DCtx* dctx, void* dst, size_t dstCapacity, c
             DEBUGLOG(5, "ZSTD_decompressContinue: decoded size from block : %u", (unsigned)rSize);
             dctx->decodedSize += rSize;
             if (dctx->validateChecksum) XXH64_update(&dctx->xxhState, dst, rSize);
-            dctx->previousDstEnd = (char*)dst + rSize;
+            if (dstCapacity > 0) dctx->previousDstEnd = (char*)dst + rSize;   /* capacity 0 : ZSTD_checkContinuity() ignored this address */
 
             /* Stay on the same stage until we are finished streaming the block. */
             if (dctx->expected > 0) {
